@@ -51,6 +51,18 @@ KEY_F9 = 'F9-default-proposal-set-order'
 KEY_F10 = 'F10-nested-transdimensional-generators'
 KEY_F5 = 'F5-shared-annealer'
 
+_VARIANT = None
+
+
+def variant():
+    """The measured code facts (gen_sharing.measure_variant). The defect keys F10 / F5 are only used
+    when the corresponding fact is measured on the current code; the same symptom on code where the
+    fact is repaired is reported under a generic key."""
+    global _VARIANT
+    if _VARIANT is None:
+        _VARIANT = G.measure_variant()[0]
+    return _VARIANT
+
 
 # --------------------------------------------------------------------------
 # canonical digests
@@ -315,7 +327,7 @@ def dynamic_findings(cfg, s, info, niter=6):
             if cfg['seed'] is not None and gid != id(own):
                 ss = gens[gid][0].seed_seq if gid in gens else None
                 findings.append((KEY_F10 if kind in ('modelIndex', 'jump', 'birth') and _in_nested(cfg, pars, info)
-                                 else 'foreign-stream:' + kind,
+                                 and not variant()['reseatsInner'] else 'foreign-stream:' + kind,
                                  'chain %d: the %s draw over %r is served by a generator that is not the chain\'s own '
                                  '(seed sequence entropy %s the sampler seed, spawn key %r; the chain\'s is %r)' % (
                                      i, kind, list(pars), 'equals' if ss is not None and ss.entropy == cfg['seed'] else 'is not',
@@ -346,7 +358,8 @@ def coinciding_streams(cfg, s, info):
             common_keys = per[i].keys() & per[j].keys()
             for k in sorted(common_keys)[:1]:
                 kind, pars = per[i][k]
-                out.append((KEY_F10 if _in_nested(cfg, pars, info) else 'coinciding-streams',
+                out.append((KEY_F10 if _in_nested(cfg, pars, info) and not variant()['reseatsInner']
+                            else 'coinciding-streams',
                             'chains %d and %d: the %s draws over %r come from generators in the same state '
                             '(identical numbers in both chains)' % (i, j, kind, list(pars)),
                             {'manifestation': 'same-stream', 'chains': [i, j], 'site': kind, 'params': list(pars)}))
@@ -385,10 +398,9 @@ def correspondence(chk, n, variant, run_dynamic=True):
             findings += [(k, t, dict(p, cfg=cfg)) for k, t, p in coinciding_streams(cfg, s, info)]
         try:
             problems, fnd, nd = dynamic_findings(cfg, s, info)
-        except ValueError as e:
-            if 'NaN acceptance' in str(e):
-                continue
-            raise
+        except (ValueError, TypeError, IndexError, AttributeError, FloatingPointError, ZeroDivisionError):
+            hist['real_code_raised'] = hist.get('real_code_raised', 0) + 1
+            continue            # the real code raised while stepping: owned by other properties
         hist['draws'] += nd
         findings += [(k, t, dict(p, cfg=cfg)) for k, t, p in fnd]
         for pr in problems:
@@ -483,6 +495,11 @@ def worker(spec):
         _ = d.bit_generator                    # decoy reads of the entropy pool
         decoys.append(d)
     decoys.append({'s%d' % i for i in range(g % 11)})
+    from epsie.samplers import MetropolisHastingsSampler
+    dec = MetropolisHastingsSampler(['u', 'v'], G.QuadModel(['u', 'v']), 1 + g % 2, seed=g)      # an unrelated sampler, run first
+    dec.start_position = {'u': numpy.zeros(1 + g % 2), 'v': numpy.ones(1 + g % 2)}
+    dec.run(1 + g % 4)
+    decoys.append(dec)
     out = {}
     for name, cfg, opts in spec['cfgs']:
         cfg = _tuplify(cfg)
@@ -497,6 +514,12 @@ def worker(spec):
             dflt = [info['names'].index(p) for p in s.proposals[-1].parameters]
         out[name] = {'parts': parts, 'default_order': dflt,
                      'chains': [chain_parts(c) for c in s.chains]}
+        # "rebuilding the same sampler from scratch and rerunning it in the same interpreter"
+        try:
+            s2, _ = run_one(cfg, opts, spec['niter'])
+            out[name]['parts_rebuilt'] = sampler_parts(s2)
+        except Exception as e:
+            out[name]['parts_rebuilt'] = {'error': repr(e)[:300]}
     return out
 
 
@@ -540,20 +563,36 @@ def c04_search(chk, tier):
     sessions = [(k, rng.randint(1, 10 ** 6)) for k in range(nsess)]
     outs = spawn_sessions(cfgs, sessions, niter)
     findings = []
+    skipped = []
     ncmp = 0
     for name, cfg, opts in cfgs:
         res = [(sess, o[name]) for sess, o in outs]
         errs = [(sess, r['error']) for sess, r in res if 'error' in r]
         if errs:
-            if all('NaN acceptance' in e for _, e in errs):
+            # the real code raising is not C04's business (other properties own those defects) unless it
+            # depends on the session: some sessions raise, others do not, or they raise differently
+            if len(errs) == len(res) and len({e for _, e in errs}) == 1:
+                skipped.append((name, errs[0][1][:120]))
                 continue
-            findings.append(('session-error:' + name, 'configuration %s raised in a fresh session: %s' % (name, errs[0][1]),
-                             {'cfg': cfg, 'opts': opts, 'sessions': [s for s, _ in errs]}))
+            findings.append(('session-error:' + name, 'configuration %s (seed %d) raises in some fresh sessions and not, '
+                             'or differently, in others: %s' % (name, cfg['seed'], errs[0][1]),
+                             {'cfg': cfg, 'opts': opts, 'niter': niter, 'manifestation': 'sessions-differ',
+                              'sessions': [list(res[0][0]), list(errs[0][0])]}))
             continue
-        ncmp += len(res)
+        ncmp += 2 * len(res)
         (s0, r0) = res[0]
         nested = any(p[0] == 'nested' for p in cfg['props'])
         ndef = len(G.missing(cfg))
+        for (s1, r1) in res:
+            if r1['parts_rebuilt'] != r1['parts']:
+                diff = sorted(k for k in r1['parts'] if r1['parts'][k] != r1['parts_rebuilt'].get(k))
+                key = KEY_F10 if (nested and _nested_entropy(cfg) and not variant()['reseatsInner']) \
+                    else 'rebuild-differs:' + name
+                findings.append((key, 'configuration %s (seed %d): building and running it twice in one interpreter '
+                                 'session gives different %s' % (name, cfg['seed'], ', '.join(diff) or 'outputs'),
+                                 {'cfg': cfg, 'opts': opts, 'niter': niter, 'manifestation': 'rebuild-differs',
+                                  'session': list(s1), 'how_to_replay': './check C04 --replay <this file>'}))
+                break
         for (s1, r1) in res[1:]:
             if r1['parts'] == r0['parts']:
                 continue
@@ -567,7 +606,7 @@ def c04_search(chk, tier):
                                  'produce different %s' % (name, ndef, cfg['seed'], s0[0], s1[0], r0['default_order'],
                                                            r1['default_order'], ', '.join(diff)),
                                  dict(payload, manifestation='sessions-differ')))
-            elif nested and _nested_entropy(cfg):
+            elif nested and _nested_entropy(cfg) and not variant()['reseatsInner']:
                 findings.append((KEY_F10, 'configuration %s (nested transdimensional proposal, sampler seed %d): two '
                                  'fresh sessions (PYTHONHASHSEED=%d, %d) produce different %s' % (
                                      name, cfg['seed'], s0[0], s1[0], ', '.join(diff)),
@@ -580,6 +619,7 @@ def c04_search(chk, tier):
     chk.coverage['search'] = {'configurations': len(cfgs), 'sessions': len(sessions),
                               'iterations': niter, 'digest_comparisons': ncmp,
                               'session_parameters': [list(s) for s in sessions],
+                              'skipped_because_the_real_code_raised_identically_everywhere': skipped,
                               'oracle': 'bit-identical digests of positions/stats/blobs/acceptance/swap history/betas/'
                                         'structural state/generator states across independent interpreter sessions'}
     chk.coverage['evaluations'] = chk.coverage.get('evaluations', 0) + ncmp
@@ -599,10 +639,8 @@ def c04_inprocess(chk, tier):
         findings += [(k, '%s: %s' % (name, t), dict(p, cfg=cfg)) for k, t, p in coinciding_streams(cfg, s, info)]
         try:
             problems, fnd, nd = dynamic_findings(cfg, s, info, niter=8 if tier == 'quick' else 30)
-        except ValueError as e:
-            if 'NaN acceptance' in str(e):
-                continue
-            raise
+        except (ValueError, TypeError, IndexError, AttributeError, FloatingPointError, ZeroDivisionError):
+            continue            # the real code raised while stepping: owned by other properties
         n += nd
         findings += [(k, '%s: %s' % (name, t), dict(p, cfg=cfg)) for k, t, p in fnd]
         for pr in problems:
@@ -665,15 +703,21 @@ class ProcessPool:
         self._pool = multiprocessing.get_context('fork').Pool(k)
 
     def map(self, f, args):
+        import pickle
+        from multiprocessing.pool import MaybeEncodingError
         try:
             return self._pool.map_async(f, list(args)).get(timeout=self.timeout)
         except multiprocessing.TimeoutError:
             raise TimeoutError('%s did not return within %d s' % (self.name, self.timeout))
+        except (MaybeEncodingError, pickle.PicklingError, BrokenPipeError, EOFError) as e:
+            raise OSError('%s: transport failure %r' % (self.name, e))
 
     def close(self):
         self._pool.terminate()
         self._pool.join()
 
+
+REAL_CODE_ERRORS = (ValueError, TypeError, IndexError, AttributeError, FloatingPointError, ZeroDivisionError)
 
 C07_CFGS = [
     ('mh-normal', {'nparams': 2, 'props': [('plain', [0], False)], 'kind': ('mh',), 'nchains': 4, 'seed': 201}, {}),
@@ -714,15 +758,43 @@ def c07_run(cfg, opts, pool, niter, salt=0, perturb=None, unshare_annealer=False
             if start[p].dtype.kind == 'f':
                 start[p] = start[p].copy()
                 v = start[p][..., perturb]
-                start[p][..., perturb] = numpy.where(numpy.isnan(v), numpy.nan, v * 0.5 + 0.05)
+                start[p][..., perturb] = numpy.where(numpy.isnan(v), numpy.nan, v + 0.123)
     s.start_position = start
     s.run(niter // 2)
     s.run(niter - niter // 2)
     return [chain_parts(c) for c in s.chains], s
 
 
+C07_FAMILIES = ['normal', 'adaptive_normal', 'ss_adaptive_normal', 'at_adaptive_normal', 'bounded_normal',
+                'adaptive_bounded_normal', 'ss_adaptive_bounded_normal', 'at_adaptive_bounded_normal',
+                'eigenvector', 'adaptive_eigenvector']
+
+
+def c07_cfgs(tier, seed):
+    out = list(C07_CFGS)
+    if tier == 'thorough':
+        rng = random.Random(seed * 17 + 3)
+        k = 0
+        while k < 16:
+            cfg = gen_cfg(rng, allow_bad=False)
+            cfg['nchains'] = max(2, cfg['nchains'])
+            if cfg['seed'] is None:
+                cfg['seed'] = rng.randint(0, 10 ** 6)
+            # a nested proposal made with an integer seed, so that the configuration is deterministic
+            # whatever C04 says about entropy-seeded inner generators
+            cfg['props'] = [(p[0], p[1] if p[1] is not None else 900 + k, p[2], p[3]) if p[0] == 'nested' else p
+                            for p in cfg['props']]
+            if cfg['kind'][0] == 'pt' and cfg['kind'][2] and cfg['kind'][1] < 3:
+                cfg['kind'] = ('pt', 3, True)
+            fams = [rng.choice(C07_FAMILIES) for _ in range(4)]
+            out.append(('random-%d' % k, cfg, {'family': fams, 'blobs': rng.random() < 0.3,
+                                               'swap_interval': rng.choice([1, 2, 3])}))
+            k += 1
+    return out
+
+
 def c07_search(chk, tier):
-    cfgs = list(C07_CFGS)
+    cfgs = c07_cfgs(tier, chk.seed)
     niter = 24 if tier == 'quick' else 60
     ks = [1, 2, 4] if tier == 'quick' else list(range(1, 17))
     rng = random.Random(chk.seed * 13 + 5)
@@ -735,6 +807,7 @@ def c07_search(chk, tier):
     inproc_pools = [CopyPool(), ChunkCopyPool(2), OrderPool(lambda n: list(range(n))[::-1], 'reversed'),
                     OrderPool(shuffled, 'shuffled')]
     findings = []
+    skipped = []
     ncmp = 0
     hist = {}
     procpools = [ProcessPool(k) for k in ks]
@@ -746,19 +819,25 @@ def c07_search(chk, tier):
                 label = name + ('(annealer copied per chain by the harness)' if unshare else '')
                 try:
                     ref, _ = c07_run(cfg, opts, None, niter, unshare_annealer=unshare)
-                except ValueError as e:
-                    if 'NaN acceptance' in str(e):
-                        break
-                    raise
+                except REAL_CODE_ERRORS as e:
+                    skipped.append((label, repr(e)[:120]))     # the serial run itself raises: other properties
+                    break
                 for pool in inproc_pools + procpools:
-                    got, _ = c07_run(cfg, opts, pool, niter, unshare_annealer=unshare)
+                    try:
+                        got, _ = c07_run(cfg, opts, pool, niter, unshare_annealer=unshare)
+                    except REAL_CODE_ERRORS as e:
+                        findings.append(('pool-dependence:%s' % name, '%s: runs under pool=None but raises under %s: %r' % (
+                            label, pool.name, e), {'cfg': cfg, 'opts': opts, 'niter': niter, 'pool': pool.name,
+                                                   'manifestation': 'serial-vs-pool', 'unshare': unshare}))
+                        break
                     ncmp += len(ref)
                     hist[pool.name] = hist.get(pool.name, 0) + 1
                     bad = [i for i in range(len(ref)) if ref[i] != got[i]]
                     if bad:
                         i = bad[0]
                         diff = sorted(k for k in ref[i] if ref[i][k] != got[i].get(k))
-                        key = KEY_F5 if (annealed and not unshare) else 'pool-dependence:%s' % name
+                        key = KEY_F5 if (annealed and not unshare and not variant()['annealerPerChain']) \
+                            else 'pool-dependence:%s' % name
                         findings.append((key, '%s: chain(s) %s differ between pool=None and %s after %d iterations '
                                          '(differing outputs of chain %d: %s)' % (label, bad, pool.name, niter, i,
                                                                                   ', '.join(diff)),
@@ -769,15 +848,20 @@ def c07_search(chk, tier):
                 # perturb the start of one chain, diff every other chain
                 for j in sorted({0, cfg['nchains'] - 1}):
                     for pool in (None, inproc_pools[0]):
-                        got, _ = c07_run(cfg, opts, pool, niter, perturb=j, unshare_annealer=unshare)
+                        try:
+                            got, _ = c07_run(cfg, opts, pool, niter, perturb=j, unshare_annealer=unshare)
+                        except REAL_CODE_ERRORS as e:
+                            skipped.append((label + ' perturbed', repr(e)[:120]))
+                            continue
                         ncmp += len(ref) - 1
                         hist['perturb'] = hist.get('perturb', 0) + 1
                         if got[j] == ref[j]:
-                            findings.append(('perturbation-ineffective:' + name, 'harness: perturbing chain %d of %s '
-                                             'changed nothing' % (j, name), {'cfg': cfg}))
+                            findings.append(('harness-note', 'perturbing the start of chain %d of %s changed nothing in that '
+                                             'chain (comparison vacuous)' % (j, name), {'cfg': cfg}))
                         bad = [i for i in range(len(ref)) if i != j and ref[i] != got[i]]
                         if bad:
-                            key = KEY_F5 if (annealed and not unshare and pool is None) else 'chain-coupling:%s' % name
+                            key = KEY_F5 if (annealed and not unshare and pool is None
+                                             and not variant()['annealerPerChain']) else 'chain-coupling:%s' % name
                             findings.append((key, '%s: changing the start position of chain %d changes chain(s) %s '
                                              '(pool %s, %d iterations)' % (label, j, bad,
                                                                            'None' if pool is None else pool.name, niter),
@@ -791,6 +875,7 @@ def c07_search(chk, tier):
             p.close()
     chk.coverage['search'] = {'configurations': len(cfgs), 'iterations': niter, 'process_pool_sizes': ks,
                               'chain_history_comparisons': ncmp, 'runs_per_pool': hist,
+                              'skipped_because_the_real_code_raised': skipped,
                               'oracle': 'bit-identical per-chain digests (positions, stats, blobs, acceptance, swap '
                                         'history, betas, state, generator state) against pool=None; perturbed start of '
                                         'chain j vs every chain i != j'}
@@ -805,7 +890,7 @@ def sharing_findings(tier):
     for name, cfg, opts in C07_CFGS:
         try:
             _, s = c07_run(cfg, opts, None, 6)
-        except ValueError:
+        except REAL_CODE_ERRORS:
             continue
         out.append((name, cfg, sorted({k for k, _, _ in G.cross_chain(s)})))
     return out
@@ -834,7 +919,8 @@ def refresh_tables(chk, proof_ok):
         if not build.ok:
             print(build.log[-3000:])
         chk.notes.append('EpsieModel/Generated/Sharing.lean was stale: regenerated from /repo, rebuilt, re-audited')
-    v = info['variant']
+    global _VARIANT
+    v = _VARIANT = info['variant']
     excluded = []
     if v['defaultOrder'] == 'hashSet':
         excluded.append('C04_env_independent does not cover configurations with >= 2 defaulted parameters on today\'s '
@@ -855,12 +941,26 @@ def refresh_tables(chk, proof_ok):
 def report(chk, proof_ok, divs, findings, suite='streams'):
     """One violation per key (stable id of the defect / failing input); a broken proof obligation or
     correspondence with no new failing input is reported as `unproved`."""
+    for key, text, _ in findings:
+        if key == 'harness-note' and text not in chk.notes:
+            chk.notes.append(text)
+    findings = [f for f in findings if f[0] != 'harness-note']
     grouped = {}
-    prio = {'sessions-differ': 0, 'serial-vs-pool': 1, 'perturbation': 2, 'foreign-stream': 3, 'same-stream': 4}
+    prio = {'sessions-differ': 0, 'serial-vs-pool': 1, 'perturbation': 2, 'rebuild-differs': 3, 'foreign-stream': 4,
+            'same-stream': 5}
     findings = sorted(findings, key=lambda f: prio.get(f[2].get('manifestation'), 9))     # stable
-    for key, text, payload in findings:
+    # one violation per family of keys (`sessions-differ:*`, `pool-dependence:*`, ...): the key reported is
+    # the family's first configuration in name order, the payload lists every affected configuration
+    fam_keys = {}
+    for key, _, _ in findings:
+        fam_keys.setdefault(key.split(':')[0], set()).add(key)
+    rep = {fam: sorted(ks)[0] for fam, ks in fam_keys.items()}
+    findings = sorted(findings, key=lambda f: 0 if f[0] == rep[f[0].split(':')[0]] else 1)      # stable
+    for key0, text, payload in findings:
+        key = rep[key0.split(':')[0]]
         g = grouped.setdefault(key, {'text': text, 'payload': dict(payload), 'n': 0, 'manifestations': []})
         g['n'] += 1
+        g.setdefault('all_keys', set()).add(key0)
         m = payload.get('manifestation')
         if m and m not in g['manifestations']:
             g['manifestations'].append(m)
@@ -873,6 +973,7 @@ def report(chk, proof_ok, divs, findings, suite='streams'):
         payload['occurrences'] = g['n']
         payload['manifestations'] = g['manifestations']
         payload['examples'] = g['examples']
+        payload['all_keys'] = sorted(g['all_keys'])
         payload.setdefault('how_to_replay', './check %s --replay <this file>' % chk.prop)
         chk.violation(key, g['text'] + (' [%d occurrences; manifestations: %s]' % (g['n'], ', '.join(g['manifestations']))
                                         if g['n'] > 1 else ''), payload, True)
@@ -921,6 +1022,12 @@ def replay(path):
             bad = [i for i in range(len(ref)) if ref[i] != got[i]]
             print('pool=None vs deep-copying map: differing chains %s' % bad)
         return 1 if bad else 0
+    if man == 'rebuild-differs':
+        a, _ = run_one(cfg, opts, d.get('niter', 24))
+        b, _ = run_one(cfg, opts, d.get('niter', 24))
+        same = sampler_parts(a) == sampler_parts(b)
+        print('built and run twice in this session: outputs %s' % ('identical' if same else 'DIFFER'))
+        return 0 if same else 1
     if man == 'sessions-differ' or key.startswith('sessions-differ'):
         sess = [tuple(s) for s in d.get('sessions', [[0, 1], [1, 2]])]
         outs = spawn_sessions([('replay', cfg, opts)], sess, d.get('niter', 24))
